@@ -3,3 +3,4 @@ import Proofs.Toks
 import Proofs.Structure
 import Proofs.Range
 import Proofs.RangeOps
+import Proofs.Fitter
